@@ -18,6 +18,10 @@ RULE = ("definitions: C01's regression + systematic + seeded random enums withou
 ASSUMPTIONS = ["names with {placeholders} are outside the property and not generated here"]
 
 
+def crate_configs(tier):
+    return [{"name": "c02", "features": ("derive", "phf")}]
+
+
 def build_corpus(tier, rng):
     c = Corpus(ID)
     thorough = tier == "thorough"
@@ -41,6 +45,12 @@ def build_corpus(tier, rng):
             cands.append(("styles", it))
     for _ in range(1200 if thorough else 90):
         cands.append(("random", G.string_enum(rng)))
+    # the phf-backed parser: everything a field-less enum prints parses back through FromStr AND through TryFrom<&str>
+    for it in c01.long_spellings():
+        if any(m.kind == "phf" for m in it.metas):
+            cands.append(("use-phf", it))
+    for _ in range(300 if thorough else 30):
+        cands.append(("use-phf", G.string_enum(rng, allow_fields=False, allow_dw=False, generics=False, custom_err=False, phf=True)))
     infos = G.classify(ID, [it for _, it in cands])
     rejected = 0
     n = 0
